@@ -107,6 +107,7 @@ package phantoms
 //@   ensures @C01: (clientLibVer < 2 ==> defined(usedVarint)) && (clientLibVer >= 2 ==> defined(usedHkdf))
 // (assumed clause: both choosers return parsed, non-nil subnets - proved for the HKDF chooser under C14, not for the legacy one)
 //@   ensures @DET: result1 == nil ==> (forall i int :: 0 <= i && i < len(result0) ==> result0[i] != nil && result0[i].IPNet != nil)
+//@   assigns nothing
 
 //@ func (p *PhantomIPSelector) Select(seed []byte, generation uint, clientLibVer uint, v6Support bool) (*PhantomIP, error)
 //@   requires p != nil
@@ -196,3 +197,16 @@ package phantoms
 //@   invariant pss != nil && fresh(pss)
 //@   invariant pss.Networks != nil
 //@   invariant phantomSelectorSet != nil
+
+// Frames of the three address routines Select dispatches to (assumed, listed in the evidence: their cumulative-interval
+// loops over big integers are not under contract; the per-subnet arithmetic they end in is verified above under C14
+// and the legacy routines' helpers have verified frames): they build new objects and write nothing else.
+//@ func selectPhantomImplV0(seed []byte, subnets []*phantomNet) (*PhantomIP, error)
+//@   assigns nothing
+//@   trusted
+//@ func selectPhantomImplVarint(seed []byte, subnets []*phantomNet) (*PhantomIP, error)
+//@   assigns nothing
+//@   trusted
+//@ func selectPhantomImplHkdf(seed []byte, subnets []*phantomNet) (*PhantomIP, error)
+//@   assigns nothing
+//@   trusted
